@@ -2,7 +2,7 @@ from common import LEAN_TB
 
 CHECK = {
     "title": "Version comparison is the apk total order and constraints follow it",
-    "modules": ["Apko.Proofs.Lemmas.VersionGrammar", "Apko.Proofs.Lemmas.VersionGrammarComplete", "Apko.Proofs.Lemmas.VersionRender", "Apko.Proofs.Lemmas.VersionConstraint", "Apko.Proofs.Lemmas.VersionConstraintIff", "Apko.Proofs.C03"],
+    "modules": ["Apko.Proofs.Lemmas.VersionGrammar", "Apko.Proofs.Lemmas.VersionGrammarComplete", "Apko.Proofs.Lemmas.VersionRender", "Apko.Proofs.Lemmas.VersionConstraint", "Apko.Proofs.Lemmas.VersionConstraintIff", "Apko.Proofs.Lemmas.VersionRegex", "Apko.Proofs.C03"],
     "suites": [("version", 3000, 60000)],
     "fact_prefixes": ["version.go"],
     "hashes": {
